@@ -34,7 +34,7 @@ type isoJob struct {
 
 var isoHandlers = map[string]func(c *Ctx, raw json.RawMessage){}
 
-const isoFlushEvery = 25
+const isoFlushEvery = 8
 
 func runWorker(jobFile string) {
 	debug.SetMaxStack(256 << 20) // a runaway recursion dies quickly instead of eating 1 GB
@@ -169,6 +169,7 @@ func runIsolated(c *Ctx, handler string, cases []interface{}, class func(i int) 
 				if strings.Contains(kind, "out_of_memory") || strings.Contains(kind, "cannot_allocate") {
 					// asking for more memory than the harness limit is counted, not judged
 					c.AddCount("over_memory_limit", 1)
+					c.Eval(1) // it was run; the dead worker's own count is lost
 				} else {
 					c.Violate(class(at)+":"+kind+":"+site, fmt.Sprintf("%s\nin %s\ncase %s", reason, site, clipStr(string(raws[at]))), json.RawMessage(raws[at]))
 				}
